@@ -923,9 +923,14 @@ class ICalendarFile(File):
         else:
             for component in subcomponents:
                 try:
-                    return component["SUMMARY"]
+                    summary = component["SUMMARY"]
                 except KeyError:
                     pass
+                else:
+                    if isinstance(summary, list):
+                        # SUMMARY occurs more than once
+                        summary = summary[0]
+                    return summary
         return super().describe(name)
 
     def get_uid(self):
